@@ -19,7 +19,7 @@ RULE = ("case = one generated project (1-4 source files in four size classes, 1-
         "sites biased to scratch writes/renames/post-rename operations, thorough sweeps every k x action. "
         "An evaluation is one faulted run; it is non-trivial when the planned fault actually fired; distinct = distinct "
         "(world, k, action, errno).")
-PROBES = ["two_fault_plan", "multi_drain", "kill_with_scratch_open", "fault_after_first_rename", "exdev_rename", "kill_mid_write"]
+PROBES = ["aftermath_history", "two_fault_plan", "multi_drain", "kill_with_scratch_open", "fault_after_first_rename", "exdev_rename", "kill_mid_write"]
 ASSUMPTIONS = ["process death = SIGKILL at an operation boundary or inside a write; only what the kernel has survives "
                "(no power-loss model)",
                "the fault-free twin defines the complete updated content (insertion offsets; ID values free)"]
@@ -122,6 +122,17 @@ def run_case(rng, idx, tier, ctx):
         viols += evaluate(wm, knobs, plan2, ctx, twin)
         ctx.probes["two_fault_plan"] += 1
         ctx.nontrivial.add("%d.2f.%d.%d" % (idx, f1["k"], f2["k"]))
+    # aftermath histories: abnormal run, developer edits (the files get shorter), fault-free run on the same tree and TMPDIR
+    ab = [(ph, f) for ph, f in common.candidates(rng, ops, phm, ["kill_before", "kill_after", "kill_mid", "fail"], False)
+          if ph in ("scratch-write", "rename", "scratch-open", "after-rename", "read-after-mutation", "lock-write", "scratch-cleanup")]
+    for ph, f in common.weighted_sample(rng, ab, [1] * len(ab), 2 if tier == "quick" else 12):
+        devs = []
+        for _ in range(rng.randrange(1, 4)):
+            devs.append({"kind": rng.choice(["del_stmt", "del_stmt", "add_stmt", "del_top"]), "pick": rng.randrange(1000),
+                         "shape": "bare", "macro": "info"})
+        viols += aftermath(wm, knobs, {"seed": base["seed"], "perm": True, "faults": [f]}, devs, base["seed"] + 2, ctx, ph)
+        ctx.probes["aftermath_history"] += 1
+        ctx.nontrivial.add("%d.am.%d.%s" % (idx, f["k"], f["act"]))
     for plan in plans:
         f0 = plan["faults"][0]
         vs = evaluate(wm, knobs, plan, ctx, twin)
@@ -142,10 +153,64 @@ def run_case(rng, idx, tier, ctx):
     return viols
 
 
+def aftermath(wm0, knobs, plan, devs, seed2, ctx, phase="?"):
+    """A killed (or failed) edit run, then developer edits, then a fault-free edit run on the same tree and the same
+    TMPDIR: whatever the first run left behind must not leak into the files the second one writes."""
+    import copy
+    wm = copy.deepcopy(wm0)
+    root = core.new_root("a")
+    viols = []
+    try:
+        core.materialise(world.wm_world(wm), root)
+        r1 = core.run_breadlog(root, check=False, plan=plan, knobs=knobs)
+        ctx.count_run(r1)
+        d1 = core.read_world(root)
+        info = world.sync_model(wm, d1)
+        if info["torn"] or info["missing"]:
+            return viols  # the single-run oracle reports that
+        descs = [world.dev_apply(wm, e, root) for e in devs]
+        before = core.read_world(root)
+        r2 = core.run_breadlog(root, check=False, plan={"seed": seed2, "perm": True, "faults": []}, knobs=knobs)
+        ctx.count_run(r2)
+        after = core.read_world(root)
+        scenario = {"wm": world.wm_to_json(wm0), "knobs": knobs, "plan": plan, "devs": devs, "seed2": seed2, "phase": phase}
+        digest = hashlib.sha256((r1.trace_digest() + r2.trace_digest() + core.digest_world(after)).encode()).hexdigest()
+        fcls = scen.fault_class(plan["faults"][0])
+        for p in sorted(wm["files"]):
+            b, a = before.get(p), after.get(p)
+            if b is None:
+                continue
+            if a is None or a["t"] != "f" or core.explain(b["data"], a["data"]) is None:
+                viols.append({"signature": "aftermath-torn-source|%s|%s|%s" % (r2.ending(), fcls, phase),
+                              "what": "after %s at op %s (%s), developer edits %s and a fault-free second run, %s is not its "
+                                      "pre-run content plus tokens (%d B -> %s B)"
+                                      % (fcls, plan["faults"][0].get("k"), phase, [d for d in descs if d], p, len(b["data"]),
+                                         len(a["data"]) if a and a["t"] == "f" else "-"),
+                              "scenario": scenario, "digest": digest})
+                break
+        if r2.mode != "exited" or r2.status != 0:
+            viols.append({"signature": "aftermath-second-run-fails|%s|%s|%s" % (r2.ending(), fcls, phase),
+                          "what": "the fault-free run after %s at %s ended %s" % (fcls, phase, r2.ending()),
+                          "scenario": scenario, "digest": digest})
+        return viols
+    finally:
+        core.rm_root(root)
+
+
 def replay(scenario, ctx):
     wm = world.wm_from_json(scenario["wm"])
+    if "devs" in scenario:
+        return aftermath(wm, scenario["knobs"], scenario["plan"], scenario["devs"], scenario["seed2"], ctx, scenario.get("phase", "?"))
     return evaluate(wm, scenario["knobs"], scenario["plan"], ctx)
 
 
 def shrink_candidates(scenario):
-    return common.shrink_single(scenario, check=False)
+    if "devs" in scenario:
+        for i in range(len(scenario["devs"])):
+            s2 = dict(scenario)
+            s2["devs"] = scenario["devs"][:i] + scenario["devs"][i + 1:]
+            if s2["devs"]:
+                yield s2
+        return
+    for s in common.shrink_single(scenario, check=False):
+        yield s
